@@ -617,7 +617,7 @@ def run(ctx: core.Ctx):
             continue
         reported.add(cls)
         ctx.violation("real behaviour violates C08: " + cls, {"case": c, "detail": w}, kind="concrete", match_info={"failure": classify(w), "op": c["step"]["op"]})
-    if not concrete:
+    if not ctx.violations:  # no NEW concrete violation (none at all, or only ones a registered known finding describes)
         if broken:
             c, w = broken[0]
             ctx.violation("correspondence Txn model <-> fault behaviour of the public operations no longer checks",
